@@ -73,6 +73,48 @@ fn c02_map_targets_mt() {
     kani::cover!(out.targets[(0, 0)] && !out.targets[(0, 1)]);
 }
 
+// the statement quantifies over "any shape ... owned or view": a column-major (Fortran-order) target matrix and a
+// reversed single-target view are contiguous in memory but NOT row-major; the mapped value must stay with its (row, column)
+// @unit class=bounded tier=quick mem=light bound="n=3,p=1,2 target columns stored column-major; values symbolic u8" timeout=600 fns=linfa::dataset::DatasetBase::map_targets
+#[kani::proof]
+#[kani::unwind(8)]
+#[kani::stub(alloc::fmt::format, fmt_stub)]
+fn c02_map_targets_colmajor() {
+    use ndarray::ShapeBuilder;
+    let v: [u8; 3] = kani::any();
+    let t: [u8; 6] = kani::any();             // memory order = column by column: t[0..3] is column 0
+    let c: u8 = kani::any();
+    let tar = Array2::from_shape_vec((3, 2).f(), t.to_vec()).unwrap();
+    let ds = Dataset::new(Array2::from_shape_vec((3, 1), v.to_vec()).unwrap(), tar);
+    let out = ds.map_targets(|x| *x > c);
+    assert!(out.records.dim() == (3, 1) && out.targets.dim() == (3, 2));
+    for i in 0..3 {
+        assert!(out.records[(i, 0)] == v[i]);
+        assert!(out.targets[(i, 0)] == (t[i] > c) && out.targets[(i, 1)] == (t[3 + i] > c));
+    }
+    kani::cover!(out.targets[(0, 0)] && !out.targets[(1, 0)] && out.targets[(0, 1)] != out.targets[(2, 1)]);
+}
+
+// @unit class=bounded tier=quick mem=light bound="n=3,p=1,single target seen through a reversed view; values symbolic u8" timeout=600 fns=linfa::dataset::DatasetBase::map_targets
+#[kani::proof]
+#[kani::unwind(8)]
+#[kani::stub(alloc::fmt::format, fmt_stub)]
+fn c02_map_targets_reversed_view() {
+    use ndarray::s;
+    let v: [u8; 3] = kani::any();
+    let t: [u8; 3] = kani::any();
+    let c: u8 = kani::any();
+    let rec = Array2::from_shape_vec((3, 1), v.to_vec()).unwrap();
+    let tar = Array1::from(t.to_vec());
+    let ds = crate::dataset::DatasetBase::new(rec.view(), tar.slice(s![..;-1]));      // target of row i is t[2 - i]
+    let out = ds.map_targets(|x| *x > c);
+    for i in 0..3 {
+        assert!(out.records[(i, 0)] == v[i]);
+        assert!(out.targets[i] == (t[2 - i] > c));
+    }
+    kani::cover!(out.targets[0] && !out.targets[2]);
+}
+
 // @unit class=bounded tier=quick mem=light bound="n=3,p=2,single target,weights+names,values symbolic u8" timeout=600 fns=linfa::dataset::DatasetBase::view,linfa::dataset::DatasetBase::to_owned
 #[kani::proof]
 #[kani::unwind(8)]
